@@ -161,6 +161,9 @@ class Conf:
         # FULL_KEY: the last-active ids of exited submachines are part of the abstract state even without history
         # (the real machines keep them; a no-history machine must not depend on them - C08 checks exactly that)
         hm = {m.name: (m.history != 'none' or s.prog.full_key) for m in s.prog.machines}
+        # STALE_KEY: a stopped machine keeps its last active ids; with stale_key they are part of the abstract state of a
+        # stopped configuration, so that restart is explored from every stale configuration (it must not depend on them)
+        if not s.started and getattr(s.prog, 'stale_key', False): act = set(s.m)
         return (s.started, tuple((n, tuple(v['active']) if n in act else None,
                                   tuple(v['hist']) if (v['hist'] and hm[n]) else None)
                                  for n, v in sorted(s.m.items())),
